@@ -956,6 +956,10 @@ fn c18_type<T: KS + Send + Sync>(out: &mut Out, rng0: &mut Rng, tier: &Tier) {
                     let mut outs: Vec<Option<T>> = Vec::new();
                     for (is_nth, nn) in &calls2 {
                         outs.push(if *is_nth { it.nth(*nn) } else { it.next() });
+                        // the size queries must stay callable at every point of the history, also after the end
+                        // (their value is claimed up front only): a panic here makes the whole case fail
+                        let _ = it.size_hint();
+                        let _ = it.len();
                     }
                     (hint, lo, hi, outs)
                 }));
